@@ -20,6 +20,8 @@ theorem bind_eq_ok {α β} {x : Outcome α} {f : α → Outcome β} {b : β} :
 
 @[simp] theorem pure_eq_ok {α} (a : α) : (pure a : Outcome α) = .ok a := rfl
 
+@[simp] theorem ok_bind {α β} (a : α) (f : α → Outcome β) : (Outcome.ok a >>= f) = f a := rfl
+
 /-- The computation never panics. -/
 def NoPanic {α} (x : Outcome α) : Prop := ∀ s, x ≠ .panic s
 
